@@ -110,41 +110,31 @@ def run(ctx):
              "angle, half turn with negated axis and shifted phase, identity with any axis, controlled vs matrix form, operands "
              "in different order, embedded on different operand sets) and near-misses (1e-12..1e-2, relative phases); circuit "
              "equality statement-wise; non-trivial = pairs of distinct pool entries")
+    P, objs = run_pairs_and_history(ctx)
+    ctx.sample({"left": P[0], "right": P[1], "equal": py_eq(objs[0], objs[1])})
+    # circuit equality is statement-wise
+    n_c = 0
+    for _ in range(ctx.pick(80, 800)):
+        nq = rng.randint(1, 3)
+        specs = gen.rand_circuit_spec(rng, nq, 1, rng.randint(0, 6), max_ctrl=1)
+        check_circuit_eq(ctx, {"nq": nq, "specs": specs, "kind": "circuit"}, rng.randrange)
+        n_c += 1
+    ctx.suite("circuits", cases=n_c)
+
+
+def run_pairs_and_history(ctx):
+    """the pair suite and, on the very same gate objects, the history suite (every comparison asked again after all the
+    others have run): a replay of a history case runs both again, which is the only way to re-create that history"""
+    rng = ctx.rng
     P = pool(rng, ctx.quick)
     objs = [gen.build_stmt(s) for s in P]
     pairs = list(itertools.product(range(len(P)), repeat=2))
     if ctx.quick:
         pairs = rng.sample(pairs, min(len(pairs), 3000))
-    mres = model.call_many([["gate_eq", ser.ser_gate(objs[i]), ser.ser_gate(objs[j])] for i, j in pairs])
+    mres = model.call_many([pair_request(objs[i], objs[j]) for i, j in pairs])
     ctx.suite("pairs", cases=len(pairs), pool=len(P))
-    for (i, j), (margin, r) in zip(pairs, mres):
-        a, b = objs[i], objs[j]
-        case = {"left": P[i], "right": P[j], "left_kind": type(a).__name__, "right_kind": type(b).__name__}
-        ctx.seen(case, i != j)
-        im = py_eq(a, b)
-        mv = ser.canon(r)
-        mo = (mv[1] == "true") if mv[0] == "ok" else "raised"
-        eq = (im == mo) or (isinstance(im, str) and mo == "raised")
-        if not eq:
-            ctx.disagree("pairs", case, f"impl {im} model {mv}", margin)
-        qs = sorted(set(oracles.stmt_qubits(a)) | set(oracles.stmt_qubits(b)))
-        qm = {q: k for k, q in enumerate(qs)}
-        A, B = union_op(a, qm, len(qs)), union_op(b, qm, len(qs))
-        both_rot = type(a).__name__ == type(b).__name__ == "BlochSphereRotation"
-        d = float(np.abs(A - B).max()) if both_rot else oracles.phase_dist(A, B)
-        ctx.bump("equal" if im is True else "unequal")
-        if isinstance(im, str):
-            ctx.oracle_fail("pairs", case, f"comparison {im}", eq)
-        elif d < 1e-9 and im is not True:
-            ctx.oracle_fail("pairs", case, f"equal operations compare unequal (distance {d:.2g})", eq)
-        elif d > 1e-4 and im is True:
-            ctx.oracle_fail("pairs", case, f"different operations (distance {d:.3g}) compare equal", eq)
-        # symmetry (gap respected): a == b and b == a must not disagree when the operations are clearly equal / different
-        if (d < 1e-9 or d > 1e-4) and py_eq(b, a) != im and not isinstance(im, str):
-            if not (type(a).__name__ == "BlochSphereRotation") != (type(b).__name__ == "BlochSphereRotation"):
-                ctx.oracle_fail("pairs", case, f"equality is not symmetric: a==b is {im}, b==a is {py_eq(b, a)}", eq)
-        if i == j and im is not True:
-            ctx.oracle_fail("pairs", case, "equality is not reflexive", eq)
+    for (i, j), mr in zip(pairs, mres):
+        check_pair(ctx, pair_case(P[i], P[j], objs[i], objs[j]), objs[i], objs[j], mr, i == j)
     # history: every answer given above is asked for again, in another order, after all the other comparisons have run
     first = {}
     for (i, j) in pairs:
@@ -160,39 +150,88 @@ def run(ctx):
         fresh[key] = py_eq(fa, fb)
         n_hist += 1
         if fresh[key] != answers[key]:
-            case = {"left": P[i], "right": P[j], "left_kind": type(fa).__name__, "right_kind": type(fb).__name__, "kind": "history"}
+            case = {**pair_case(P[i], P[j], fa, fb), "kind": "history"}
             ctx.seen(case)
             ctx.oracle_fail("history", case, f"the same comparison answered {answers[key]} and then {fresh[key]} on freshly built gates", None)
     ctx.suite("history", cases=n_hist)
-    ctx.sample({"left": P[0], "right": P[1], "equal": py_eq(objs[0], objs[1])})
-    # circuit equality is statement-wise
-    n_c = 0
-    for _ in range(ctx.pick(80, 800)):
-        nq = rng.randint(1, 3)
-        specs = gen.rand_circuit_spec(rng, nq, 1, rng.randint(0, 6), max_ctrl=1)
-        c1 = gen.build_circuit(nq, 1, specs)
-        c2 = gen.build_circuit(nq, 1, specs)
-        case = {"nq": nq, "specs": specs, "kind": "circuit"}
-        ctx.seen(case)
-        n_c += 1
-        if not (c1 == c2):
-            ctx.oracle_fail("circuits", case, "two circuits built from the same statements compare unequal", None)
-            continue
-        if specs:
-            k = rng.randrange(len(specs))
-            alt = [list(s) for s in specs]
-            alt[k] = ["named", "H", [0]] if specs[k] != ["named", "H", [0]] else ["named", "X", [0]]
-            c3 = gen.build_circuit(nq, 1, alt)
-            a, b = c1.ir.statements[k], c3.ir.statements[k]
-            same_stmt = py_eq(a, b) is True
-            if (c1 == c3) != same_stmt:
-                ctx.oracle_fail("circuits", case, "circuit equality is not statement-wise", None)
-    ctx.suite("circuits", cases=n_c)
+    return P, objs
+
+
+def pair_request(a, b):
+    return ["gate_eq", ser.ser_gate(a), ser.ser_gate(b)]
+
+
+def pair_case(left, right, a, b):
+    return {"left": left, "right": right, "left_kind": type(a).__name__, "right_kind": type(b).__name__}
+
+
+def check_pair(ctx, case, a, b, mr, same_object):
+    margin, r = mr
+    ctx.seen(case, not same_object)
+    if same_object:
+        case = {**case, "same_object": True}         # as recorded: a replay compares one object with itself
+    im = py_eq(a, b)
+    mv = ser.canon(r)
+    mo = (mv[1] == "true") if mv[0] == "ok" else "raised"
+    eq = (im == mo) or (isinstance(im, str) and mo == "raised")
+    if not eq:
+        ctx.disagree("pairs", case, f"impl {im} model {mv}", margin)
+    qs = sorted(set(oracles.stmt_qubits(a)) | set(oracles.stmt_qubits(b)))
+    qm = {q: k for k, q in enumerate(qs)}
+    A, B = union_op(a, qm, len(qs)), union_op(b, qm, len(qs))
+    both_rot = type(a).__name__ == type(b).__name__ == "BlochSphereRotation"
+    d = float(np.abs(A - B).max()) if both_rot else oracles.phase_dist(A, B)
+    ctx.bump("equal" if im is True else "unequal")
+    if isinstance(im, str):
+        ctx.oracle_fail("pairs", case, f"comparison {im}", eq)
+    elif d < 1e-9 and im is not True:
+        ctx.oracle_fail("pairs", case, f"equal operations compare unequal (distance {d:.2g})", eq)
+    elif d > 1e-4 and im is True:
+        ctx.oracle_fail("pairs", case, f"different operations (distance {d:.3g}) compare equal", eq)
+    # symmetry (gap respected): a == b and b == a must not disagree when the operations are clearly equal / different
+    if (d < 1e-9 or d > 1e-4) and py_eq(b, a) != im and not isinstance(im, str):
+        if not (type(a).__name__ == "BlochSphereRotation") != (type(b).__name__ == "BlochSphereRotation"):
+            ctx.oracle_fail("pairs", case, f"equality is not symmetric: a==b is {im}, b==a is {py_eq(b, a)}", eq)
+    if same_object and im is not True:
+        ctx.oracle_fail("pairs", case, "equality is not reflexive", eq)
+
+
+def check_circuit_eq(ctx, case, pick):
+    """pick(n): which of the n statements is exchanged for another one (drawn in a run, recorded for a replay)"""
+    nq, specs = case["nq"], case["specs"]
+    c1 = gen.build_circuit(nq, 1, specs)
+    c2 = gen.build_circuit(nq, 1, specs)
+    ctx.seen(case)
+    if not (c1 == c2):
+        ctx.oracle_fail("circuits", case, "two circuits built from the same statements compare unequal", None)
+        return
+    if specs:
+        k = pick(len(specs))
+        alt = [list(s) for s in specs]
+        alt[k] = ["named", "H", [0]] if specs[k] != ["named", "H", [0]] else ["named", "X", [0]]
+        c3 = gen.build_circuit(nq, 1, alt)
+        a, b = c1.ir.statements[k], c3.ir.statements[k]
+        same_stmt = py_eq(a, b) is True
+        if (c1 == c3) != same_stmt:
+            ctx.oracle_fail("circuits", {**case, "alt_index": k}, "circuit equality is not statement-wise", None)
 
 
 def replay(ctx, payload):
-    case = payload.get("case") or (payload.get("first_disagreement") or {}).get("case")
-    if "left" not in case:
-        return {"fails": payload.get("kind") == "oracle"}
-    a, b = gen.build_stmt(case["left"]), gen.build_stmt(case["right"])
-    return {"a==b": py_eq(a, b), "b==a": py_eq(b, a), "fails": payload.get("kind") == "oracle"}
+    from harness import framework
+
+    suite, case = framework.replay_target(payload)
+    if case is None:
+        return framework.replay_nothing(payload)
+    if case.get("kind") == "circuit":
+        check_circuit_eq(ctx, {k: case[k] for k in ("nq", "specs", "kind")}, lambda n: case.get("alt_index", 0) % n)
+        return framework.replay_result(ctx)
+    # the answers of the pair and history suites may depend on every comparison made before on the same gate objects
+    # and through the library's caches: first the history of the run again, then the pair on its own
+    extra = framework.rerun_history(ctx, payload, case, run_pairs_and_history)
+    if case.get("kind") == "history" or ctx.oracle_failures or ctx.disagreements:
+        return framework.replay_result(ctx, **extra)
+    a = gen.build_stmt(case["left"])
+    b = a if case.get("same_object") else gen.build_stmt(case["right"])
+    pub = {k: v for k, v in case.items() if k != "same_object"}
+    check_pair(ctx, pub, a, b, model.call_many([pair_request(a, b)])[0], bool(case.get("same_object")))
+    return framework.replay_result(ctx, **extra, **{"a==b": py_eq(a, b), "b==a": py_eq(b, a)})
